@@ -4,6 +4,7 @@ pub mod gen;
 pub mod refc;
 pub mod registry;
 pub mod props {
+    pub mod c01;
     pub mod c16;
     pub mod c17;
 }
@@ -28,4 +29,21 @@ pub fn run_regressions(ctx: &Ctx, stats: &mut Stats, replay: fn(&str, &Value) ->
             None => stats.notes.push(format!("regression file {} not understood", path.display())),
         }
     }
+}
+
+pub type RunFn = fn(Tier) -> i32;
+pub type ReplayFn = fn(&str, &Value) -> Option<CheckResult>;
+fn run_c01(t: Tier) -> i32 {
+    props::c01::run_codec("C01", t)
+}
+fn run_c03(t: Tier) -> i32 {
+    props::c01::run_codec("C03", t)
+}
+pub fn dispatch() -> Vec<(&'static str, RunFn, ReplayFn)> {
+    vec![
+        ("C01", run_c01 as RunFn, props::c01::replay_c01 as ReplayFn),
+        ("C03", run_c03, props::c01::replay_c03),
+        ("C16", props::c16::run, props::c16::replay),
+        ("C17", props::c17::run, props::c17::replay),
+    ]
 }
